@@ -11,6 +11,7 @@ package main
 import (
 	"context"
 	"fmt"
+	"os"
 	"sort"
 	"strings"
 	"testing/fstest"
@@ -188,7 +189,9 @@ func c35Compile(src string, files map[string]string) (d *d2target.Diagram, err e
 
 // the specification's reading of a written link: pop one board level per leading underscore, then
 // (kind, name) pairs; ok=false when the rest is not of that shape
-func c35SpecTarget(def, fileRoot []c35Pair, link []d2ast.String) (target []c35Pair, ok bool) {
+// misshaped reports whether the failure is in the shape of the path after the underscores (the class of
+// finding C35-misshaped-link-kept) rather than in popping above the root.
+func c35SpecTarget(def, fileRoot []c35Pair, link []d2ast.String) (target []c35Pair, ok bool, misshaped bool) {
 	target = append([]c35Pair{}, def...)
 	i := 0
 	if len(link) > 0 && link[0].ScalarString() == "root" {
@@ -198,24 +201,29 @@ func c35SpecTarget(def, fileRoot []c35Pair, link []d2ast.String) (target []c35Pa
 	} else {
 		for i < len(link) && link[i].ScalarString() == "_" && link[i].IsUnquoted() {
 			if len(target) == 0 {
-				return nil, false
+				return nil, false, false
 			}
 			target = target[:len(target)-1]
 			i++
 		}
 	}
 	rest := link[i:]
+	boardish := i > 0 || (len(rest) > 0 && rest[0].IsUnquoted() &&
+		(strings.EqualFold(rest[0].ScalarString(), "layers") || strings.EqualFold(rest[0].ScalarString(), "scenarios") || strings.EqualFold(rest[0].ScalarString(), "steps")))
+	if i == 0 && len(link) > 0 && !link[0].IsUnquoted() {
+		return nil, false, false // a quoted first segment: not a board link at all
+	}
 	if len(rest)%2 != 0 {
-		return nil, false
+		return nil, false, boardish
 	}
 	for j := 0; j < len(rest); j += 2 {
 		k := rest[j].ScalarString()
 		if k != "layers" && k != "scenarios" && k != "steps" {
-			return nil, false
+			return nil, false, boardish
 		}
 		target = append(target, c35Pair{k, rest[j+1].ScalarString()})
 	}
-	return target, true
+	return target, true, false
 }
 
 func c35PairsEq(a, b []c35Pair) bool {
@@ -482,9 +490,9 @@ type c35Record struct {
 func c35Gen(r *Rng, tier string, n int) []Case {
 	var out []Case
 	for _, src := range c35Corpus() {
-		out = append(out, c35Case(src, nil, "corpus"))
+		out = append(out, c35Cases(src, nil, "corpus")...)
 	}
-	out = append(out, c35Case(c35ImportCorpusMain, map[string]string{"x": c35ImportCorpusX}, "corpus-import"))
+	out = append(out, c35Cases(c35ImportCorpusMain, map[string]string{"x": c35ImportCorpusX}, "corpus-import")...)
 	for len(out) < n {
 		rr := r.Fork()
 		if rr.Intn(3) == 0 {
@@ -493,10 +501,10 @@ func c35Gen(r *Rng, tier string, n int) []Case {
 			if len(files) == 0 {
 				cl = "random"
 			}
-			out = append(out, c35Case(prog.src(""), files, cl))
+			out = append(out, c35Cases(prog.src(""), files, cl)...)
 		} else {
 			prog, _ := c35GenProgram(rr, false)
-			out = append(out, c35Case(prog.src(""), nil, "random"))
+			out = append(out, c35Cases(prog.src(""), nil, "random")...)
 		}
 	}
 	return out
@@ -700,7 +708,8 @@ func c35Case(src string, files map[string]string, class string) (cs Case) {
 	final := map[at]string{}
 	collect(d, nil, final)
 
-	var recs []string
+	var recs, recsKF []string // links without / with a known-finding signature
+	var dbg []string
 	var shown []map[string]any
 	kf := map[string]bool{}
 	nontrivial := 0
@@ -742,6 +751,7 @@ func c35Case(src string, files map[string]string, class string) (cs Case) {
 				nontrivial++
 			}
 			impOpt := "None"
+			inheritedHere := false
 			if w.imp != nil {
 				impOpt = "(Some " + c35CoqIDA(w.imp) + ")"
 			} else {
@@ -753,37 +763,83 @@ func c35Case(src string, files map[string]string, class string) (cs Case) {
 					if ok && !(len(w.board) >= k && c35PairsEq(w.board[:k], bp[:k])) {
 						impOpt = "(Some " + c35CoqIDA(ib) + ")"
 						inheritedIntoImport = true
+						inheritedHere = true
 						break
 					}
 				}
 			}
-			recs = append(recs, fmt.Sprintf("L %s %s %s %s %s %s %s", c35CoqIDA(w.scope), impOpt, c35CoqPairs(bp), c35CoqIDA(link.IDA()),
-				storedOpt, c35CoqStr(st), c35CoqStr(fin)))
+			rec := fmt.Sprintf("L %s %s %s %s %s %s %s", c35CoqIDA(w.scope), impOpt, c35CoqPairs(bp), c35CoqIDA(link.IDA()),
+				storedOpt, c35CoqStr(st), c35CoqStr(fin))
 			if len(shown) < 12 {
 				shown = append(shown, map[string]any{"board": fmt.Sprint(bp), "obj": w.obj, "link": w.raw, "stored": st, "final": fin, "imported": w.imp != nil})
 			}
-			// known-finding signatures, from the written link and the board tree only
-			if target, ok := c35SpecTarget(w.board, w.froot, link.IDA()); ok {
+			// known-finding signatures of THIS link, from the written link and the board tree only
+			tagged := false
+			if inheritedHere {
+				// extendLinks also rebases the links an imported scenario/step inherits from its parent board
+				kf["C35-imported-scenario-rebases-inherited-links"] = true
+				tagged = true
+			}
+			if target, ok, misshaped := c35SpecTarget(w.board, w.froot, link.IDA()); ok {
 				if c35PairsEq(target, bp) && len(bp) >= 2 {
 					kf["C35-self-link-nested-board"] = true
+					tagged = true
 				}
 				for _, p := range target {
 					if strings.Contains(p.Name, ".") {
 						kf["C35-dotted-board-name-not-relinked"] = true
+						tagged = true
 					}
 				}
-			} else {
+			} else if misshaped || (w.imp != nil && len(link.IDA()) >= 1) {
+				// (inside an imported file extendLinks rebases ANY link text, dropping its first segment:
+				// `"scenarios".main` or foo.main in a file imported as board main becomes
+				// root.scenarios.main.main, which hasBoard accepts; a one-word link such as readme becomes a
+				// link to the importing board itself, kept when that board is nested)
 				kf["C35-misshaped-link-kept"] = true
+				tagged = true
+			}
+			if tagged {
+				recsKF = append(recsKF, rec)
+			} else {
+				recs = append(recs, rec)
+				if os.Getenv("C35_DEBUG") != "" {
+					dbg = append(dbg, fmt.Sprintf("%s @%v link=%s stored=%s", w.obj, bp, w.raw, st))
+				}
 			}
 		}
 	}
 	cs.Coq = fmt.Sprintf("Case %s %s %s %s", coqBytes(".svg"), c34Path("/w/out"), tree.coq(), coqList(recs))
-	cs.Impl = map[string]any{"links": shown, "n_links": len(recs)}
+	cs.Impl = map[string]any{"links": shown, "n_links": len(recs), "n_links_with_kf_signature": len(recsKF)}
+	if dbg != nil {
+		cs.Impl.(map[string]any)["debug"] = dbg
+	}
 	cs.Nontrivial = nontrivial > 0
 	_ = inheritedIntoImport
-	for k := range kf {
-		cs.KF = append(cs.KF, k)
+	if len(recsKF) > 0 {
+		// the links that match a known-finding signature go into a case of their own, so that a known
+		// finding can never hide a failure on any other link of the program
+		c35Pending = &Case{Class: class + "-kf-links", Input: cs.Input, Key: cs.Key + "\x00kf", Nontrivial: true,
+			Impl: map[string]any{"n_links": len(recsKF)},
+			Coq:  fmt.Sprintf("Case %s %s %s %s", coqBytes(".svg"), c34Path("/w/out"), tree.coq(), coqList(recsKF))}
+		for k := range kf {
+			c35Pending.KF = append(c35Pending.KF, k)
+		}
+		sort.Strings(c35Pending.KF)
 	}
-	sort.Strings(cs.KF)
 	return cs
+}
+
+// second case produced by the last c35Case call (links with a known-finding signature)
+var c35Pending *Case
+
+func c35Cases(src string, files map[string]string, class string) []Case {
+	c35Pending = nil
+	c := c35Case(src, files, class)
+	out := []Case{c}
+	if c35Pending != nil {
+		out = append(out, *c35Pending)
+		c35Pending = nil
+	}
+	return out
 }
